@@ -165,7 +165,7 @@ class PrecedenceHarness(Harness):
   bounds = {"quick": "all %d style properties x every applicable element kind of the chain region>body>div>p>span x which of "
                      "animation (symbolic interval, symbolic t) / specified / parent specified / document initial value are present" % len(PROPS),
             "thorough": "same"}
-  budget_s = {"quick": 200, "thorough": 900}
+  budget_s = {"quick": 200, "thorough": 2400}
 
   def partitions(self, tier):
     return [{"prop": i} for i in range(len(PROPS))]
@@ -289,7 +289,7 @@ class LengthHarness(Harness):
   bounds = {"quick": "font size specified on any subset of region/p/span with any of 5 units and symbolic values (0,1000); dependent "
                      "lengths (lineHeight, linePadding, textOutline, textShadow x/y/blur, rubyReserve) on p/span in any unit; "
                      "4 cell resolutions x 3 pixel extents", "thorough": "same with div and body font sizes as well"}
-  budget_s = {"quick": 200, "thorough": 900}
+  budget_s = {"quick": 200, "thorough": 2400}
 
   RES = [((15, 32), (1920, 1080)), ((10, 20), (640, 480)), ((1, 1), (1, 1)), ((23, 40), (1920, 1080))]
 
@@ -428,7 +428,7 @@ class GeometryHarness(Harness):
   required_witnesses = ("position-right-edge", "position-bottom-edge", "vertical-writing-mode", "origin-only")
   bounds = {"quick": "region extent/origin/position/padding with symbolic numbers in %, c, px, rh/rw; 4 writing modes; 4 edge "
                      "combinations; 2 cell/pixel resolutions", "thorough": "same, 4 resolutions"}
-  budget_s = {"quick": 200, "thorough": 900}
+  budget_s = {"quick": 200, "thorough": 2400}
 
   def partitions(self, tier):
     nres = 2 if tier == "quick" else 4
